@@ -166,7 +166,7 @@ impl Engine for BuildEngine {
       if let Step::BottomUp { then_require, pre_require, shape, .. } = st {
         for j in 0..then_require.len() { let mut s = scn.clone(); if let Step::BottomUp { then_require, .. } = &mut s.steps[i] { then_require.remove(j); } c.push(s); }
         for j in 0..pre_require.len() { let mut s = scn.clone(); if let Step::BottomUp { pre_require, .. } = &mut s.steps[i] { pre_require.remove(j); } c.push(s); }
-        for bit in [1u8, 2] { if shape & bit != 0 { let mut s = scn.clone(); if let Step::BottomUp { shape, .. } = &mut s.steps[i] { *shape &= !bit; } c.push(s); } }
+        for bit in [1u8, 2, 4] { if shape & bit != 0 { let mut s = scn.clone(); if let Step::BottomUp { shape, .. } = &mut s.steps[i] { *shape &= !bit; } c.push(s); } }
       }
     }
     // Empty whole tasks (requires of them stay; they become constant tasks).
